@@ -17,6 +17,9 @@ and hostmask tests — that ends in a reply or in exactly one dictionary operati
   commands it sends.
 * `nicks` is `irc.state.nicksToHostmasks` restricted to what this layer feeds it: every incoming
   message records its sender's nick (the nick fallback of the `otherUser` converter reads it).
+* `nickStep` is `Irc.doNick` under `supybot.followIdentificationThroughNickChanges` (`follow`):
+  the logins of the sender's account that were made from the sender's hostmask move to the new
+  hostmask.  The ghost log follows (`followLog`) and `events` records the NICK message.
 * `pstepA` adds what the bot does around every command: its own lookups of the sender
   (`checkIgnored` in `Owner.__call__` and `Owner.doPrivmsg`, which abort the dispatch when the
   sender matches two accounts; the command-capability checks; one `checkIgnored` per other loaded
@@ -49,8 +52,12 @@ deriving DecidableEq, Repr
 structure LogEntry where
   uid : Nat
   t : Int
+  /-- the hostmask of the login entry this backs -/
   host : Str
   pw : Str
+  /-- the sender of the `identify` command that carried `pw` (differs from `host` only after
+  `Irc.doNick` followed a nick change) -/
+  origin : Str
 deriving DecidableEq, Repr
 
 structure PSt where
@@ -61,6 +68,10 @@ structure PSt where
   log : List LogEntry := []
   /-- `irc.state.nicksToHostmasks` (an IrcDict: keys compared after `toLower`) -/
   nicks : List (Str × Str) := []
+  /-- `supybot.followIdentificationThroughNickChanges` (default False) -/
+  follow : Bool := false
+  /-- ghost: the NICK messages that made `Irc.doNick` rewrite logins, as (sender, new hostmask) -/
+  events : List (Str × Str) := []
 deriving Repr
 
 inductive Cmd
@@ -322,7 +333,7 @@ def bookPws (pst : PSt) (c : Cmd) (op : Op) (nextId : Nat) : List (Nat × Str) :
 /-- the ghost log: an `identify` that passed the password test -/
 def bookLog (pst : PSt) (c : Cmd) (op : Op) (now : Int) : List LogEntry :=
   match c, op with
-  | .identify p _ pw, .identify id _ => pst.log ++ [{ uid := id, t := now, host := p, pw := pw }]
+  | .identify p _ pw, .identify id _ => pst.log ++ [{ uid := id, t := now, host := p, pw := pw, origin := p }]
   | _, _ => pst.log
 
 /-- one command of the User plugin -/
@@ -383,6 +394,66 @@ def pstepA (amb : Ambient) (pwOk : Str → Str → Bool) (pst : PSt) (c : Cmd) :
     else
       let r := pstep pwOk { pst0 with st := lookups a.1 p amb.pre } c
       ({ r.1 with st := lookups r.1.st p amb.post }, r.2)
+
+/-! ### NICK messages: `Irc.doNick` and `IrcState.doNick`
+
+A NICK message is no command: no plugin looks the sender up.  `Irc.doNick` (src/irclib.py), when
+`supybot.followIdentificationThroughNickChanges` is on, looks the sender up and moves every
+login of that account whose hostmask is the sender's (IRC case rules) to the sender's new
+hostmask — the one other place besides `identify` where a login entry is written. -/
+
+/-- `joinHostmask(newnick, user, host)` with `(_, user, host) = splitHostmask(p)`, for a user
+hostmask `p` (exactly one `!`) -/
+def newHost (p nn : Str) : Str := nn ++ p.dropWhile (fun c => c != '!')
+
+/-- `IrcState.doNick`: forget the old nick, remember the new one with the new hostmask -/
+def moveNick (nicks : List (Str × Str)) (p nn : Str) : List (Str × Str) :=
+  dset (ddel nicks (toLower (nickOf p))) (toLower nn) (newHost p nn)
+
+/-- the login entries account `id` holds -/
+def authOf (st : St) (id : Nat) : List (Int × Str) :=
+  match st.db.getUserById id with
+  | some w => w.auth
+  | none => []
+
+/-- ghost: the log entries that follow a rewritten login (`auth`: the logins the account holds) -/
+def followLog (log : List LogEntry) (id : Nat) (old new : Str) (auth : List (Int × Str)) : List LogEntry :=
+  (log.filter (fun l => l.uid == id && strEqual old l.host && auth.contains (l.t, l.host))).map
+    (fun l => { l with host := new })
+
+/-- one incoming `NICK nn` from `p`.  `.generic` stands for an exception that escapes
+`Irc.doNick`: `feedMsg` is firewalled, the exception is logged and the rest of `feedMsg` — the
+update of `irc.state` included — is skipped. -/
+def nickStep (pst : PSt) (p nn : Str) : PSt × Reply :=
+  if !pst.follow then ({ pst with nicks := moveNick pst.nicks p nn }, .silent) else
+  let g := getUser pst.st p
+  match g.2 with
+  | .error .key => ({ pst with st := g.1, nicks := moveNick pst.nicks p nn }, .silent)
+  | .error _ => ({ pst with st := g.1 }, .generic)
+  | .ok u =>
+    -- `if u.auth:` — what the lookup's own scan has left of it
+    if (pruneScan g.1.db.timeout g.1.now p u.auth).isEmpty then
+      ({ pst with st := g.1, nicks := moveNick pst.nicks p nn }, .silent) else
+    -- `splitHostmask` and `joinHostmask` assert
+    if !isUserHostmask p || nn.isEmpty then ({ pst with st := g.1 }, .generic) else
+    let s := step g.1 (.followNick u.id p (newHost p nn))
+    ({ pst with st := s.1, log := pst.log ++ followLog pst.log u.id p (newHost p nn) (authOf g.1 u.id),
+                events := pst.events ++ [(p, newHost p nn)],
+                nicks := if s.2 == .done then moveNick pst.nicks p nn else pst.nicks },
+      if s.2 == .done then .silent else .generic)
+
+/-- what reaches the bot: a command of the User plugin, or a NICK message -/
+inductive Ev
+  | cmd (c : Cmd)
+  | nick (p nn : Str)
+deriving Repr
+
+def estep (amb : Ambient) (pwOk : Str → Str → Bool) (pst : PSt) : Ev → PSt × Reply
+  | .cmd c => pstepA amb pwOk pst c
+  | .nick p nn => nickStep pst p nn
+
+def erun (amb : Ambient) (pwOk : Str → Str → Bool) (pst : PSt) (evs : List Ev) : PSt :=
+  evs.foldl (fun s e => (estep amb pwOk s e).1) pst
 
 def prunA (amb : Ambient) (pwOk : Str → Str → Bool) (pst : PSt) (cs : List Cmd) : PSt :=
   cs.foldl (fun s c => (pstepA amb pwOk s c).1) pst
